@@ -15,9 +15,11 @@ Reads   include/tapkee/defines/methods.hpp   DimensionReductionTraits (fields, t
                                              !is_dummy<T> or not), which slots each helper member refers to
         include/tapkee/methods/*.hpp         per __TAPKEE_IMPLEMENTATION(X) block: the slots its validate()/
                                              embed() bodies refer to (in order of first appearance)
-        include/tapkee/routines/*.hpp, utils/features.hpp, neighbors/neighbors.hpp
-                                             (evidence only) which callback member functions are reached through
-                                             the routine each slot is passed to
+        include/tapkee/routines/*.hpp, utils/features.hpp, neighbors/*.hpp
+                                             md_invoked: which callback member functions are reached through the
+                                             routines each slot is passed to (followed through free functions,
+                                             member functions, constructors -> fields, functor temporaries; what
+                                             cannot be followed is kept as "?<what>")
 Anything the small grammar does not understand raises TranslateError.
 """
 import argparse
@@ -37,7 +39,7 @@ METHODS = "include/tapkee/methods.hpp"
 BASE = "include/tapkee/methods/base.hpp"
 METHOD_DIR = "include/tapkee/methods"
 ROUTINE_GLOBS = ["include/tapkee/routines/*.hpp", "include/tapkee/utils/features.hpp",
-                 "include/tapkee/neighbors/neighbors.hpp"]
+                 "include/tapkee/neighbors/*.hpp"]
 
 
 def read(repo, rel):
@@ -221,7 +223,7 @@ def parse_base(repo):
     if not m:
         raise TranslateError("__TAPKEE_IMPLEMENTATION not found")
     visible = re.findall(r"using Base :: (\w+) ;", m.group(1))
-    return order, ftypes, type_to_slot, cb_slots, guarded, unguarded, helper_refs, visible
+    return order, ftypes, type_to_slot, cb_slots, guarded, unguarded, helper_refs, visible, helpers
 
 
 # ----------------------------------------------------------------------------- methods.hpp
@@ -255,91 +257,289 @@ def parse_dispatch(repo, type_to_slot):
     return guards, dispatched
 
 
-# ----------------------------------------------------------------------------- routines (evidence)
+# ----------------------------------------------------------------------------- routines
+CONTROL = ("if", "for", "while", "switch", "catch", "return", "sizeof", "static_cast", "const_cast", "reinterpret_cast")
+
+
+def lenient_param_names(toks):
+    """parameter names; an unnamed parameter is "_" (it cannot be used in the body)"""
+    names = []
+    for prm in split_commas(toks):
+        if not prm:
+            continue
+        if "=" in prm:
+            prm = prm[:prm.index("=")]
+        names.append(prm[-1] if len(prm) >= 2 and is_ident(prm[-1]) and prm[-2] not in ("<", ",", "::") else "_")
+    return names
+
+
 class Routines:
+    """which member functions of a callback are invoked by the code a callback is PASSED to.
+
+    Followed: free functions and member functions (by name; every overload / specialisation), objects declared with
+    constructor arguments `T<...> v(args)`, temporaries `T<...>(args)`, functor temporaries `T<...>()(args)`: the
+    constructor parameter is followed into the field it initialises and from there through every member function of
+    the class.  What cannot be followed is reported as "?<what>" -- never dropped."""
+
     def __init__(self, repo):
-        self.fns = {}   # name -> list of (params, body tokens)
-        self.structs = {}
+        self.fns = {}       # name -> list of (params, body tokens)
+        self.classes = {}   # name -> list of {"ctors": [(params, {field: param})], "bodies": [body tokens]}
         for g in ROUTINE_GLOBS:
             for p in sorted(glob.glob(os.path.join(repo, g))):
                 try:
-                    toks = lex(strip_comments(open(p).read()))
+                    toks = lex(join_continuations(strip_comments(open(p).read())))
                 except TranslateError:
                     continue
                 self._scan(toks)
+                self._scan_classes(toks)
+
+    def add_function(self, name, params, body):
+        self.fns.setdefault(name, []).append((params, body))
 
     def _scan(self, toks):
         i = 0
         n = len(toks)
         while i < n:
+            name = None
             if is_ident(toks[i]) and i + 1 < n and toks[i + 1] == "(" and (i == 0 or toks[i - 1] not in (".", "->", "return", "=", ",", "(")):
+                name, k = toks[i], i + 1
+                if name == "operator" and i + 3 < n and toks[i + 2] == ")" and toks[i + 3] == "(":
+                    name, k = "operator()", i + 3
+            if name is not None:
                 try:
-                    c = match(toks, i + 1, "(", ")")
+                    c = match(toks, k, "(", ")")
                 except TranslateError:
                     break
                 j = c + 1
                 while j < n and toks[j] in ("const", "noexcept"):
                     j += 1
-                if j < n and toks[j] == "{" and toks[i] not in ("if", "for", "while", "switch", "catch"):
+                if j < n and toks[j] == "{" and name not in CONTROL:
                     try:
                         e = match(toks, j, "{", "}")
-                        ps = param_names(toks[i + 2:c], toks[i])
+                        ps = lenient_param_names(toks[k + 1:c])
                     except TranslateError:
                         i += 1
                         continue
-                    self.fns.setdefault(toks[i], []).append((ps, toks[j + 1:e]))
+                    if name != "operator()":        # functors are reached through their class
+                        self.fns.setdefault(name, []).append((ps, toks[j + 1:e]))
                     i = e + 1
                     continue
             i += 1
 
-    def invoked(self, fname, argpos, depth=0, seen=None):
-        """member functions invoked on the argpos-th parameter of fname ("()" = call operator)"""
+    def _scan_classes(self, toks):
+        i, n = 0, len(toks)
+        while i < n:
+            if toks[i] in ("class", "struct") and i + 1 < n and is_ident(toks[i + 1]) and (i == 0 or toks[i - 1] not in ("<", ",")):
+                name, j = toks[i + 1], i + 2
+                try:
+                    if j < n and toks[j] == "<":
+                        j = match(toks, j, "<", ">") + 1
+                    if j < n and toks[j] == ":":
+                        while j < n and toks[j] not in ("{", ";"):
+                            j = match(toks, j, "<", ">") + 1 if toks[j] == "<" else j + 1
+                    if j < n and toks[j] == "{":
+                        e = match(toks, j, "{", "}")
+                        self._add_class(name, toks[j + 1:e])
+                        i = j + 1          # nested classes are scanned too
+                        continue
+                except TranslateError:
+                    pass
+            i += 1
+
+    def _add_class(self, name, body):
+        info = {"ctors": [], "members": []}
+        i, n = 0, len(body)
+        while i < n:
+            t = body[i]
+            if is_ident(t) and i + 1 < n and body[i + 1] == "(" and (i == 0 or body[i - 1] not in (".", "->", "return", "=", ",", "(")) \
+                    and t not in CONTROL:
+                fname, k = t, i + 1
+                if t == "operator" and i + 3 < n and body[i + 2] == ")" and body[i + 3] == "(":
+                    fname, k = "operator()", i + 3
+                try:
+                    c = match(body, k, "(", ")")
+                    j = c + 1
+                    inits = {}
+                    while j < n and body[j] in ("const", "noexcept"):
+                        j += 1
+                    if j < n and body[j] == ":" and fname == name:
+                        j += 1
+                        while j < n and body[j] != "{":
+                            fld = body[j]
+                            j += 1
+                            if body[j] == "<":
+                                j = match(body, j, "<", ">") + 1
+                            if body[j] not in ("(", "{"):
+                                raise TranslateError("initialiser list of " + name)
+                            e2 = match(body, j, body[j], ")" if body[j] == "(" else "}")
+                            arg = body[j + 1:e2]
+                            if len(arg) == 1:
+                                inits[fld] = arg[0]
+                            j = e2 + 1
+                            if j < n and body[j] == ",":
+                                j += 1
+                    if j < n and body[j] == "{":
+                        e = match(body, j, "{", "}")
+                        ps = lenient_param_names(body[k + 1:c])
+                        if fname == name:
+                            info["ctors"].append((ps, inits))
+                        info["members"].append((fname, ps, body[j + 1:e]))
+                        i = e + 1
+                        continue
+                except TranslateError:
+                    pass
+            i += 1
+        self.classes.setdefault(name, []).append(info)
+
+    # ---- following
+    @staticmethod
+    def _type_before(body, k):
+        """body[k] == '(' of a call; if what precedes is `T<...>` or `T<...> v` or `T v`, return (T, is_declaration)"""
+        j = k - 1
+        decl = False
+        if j >= 0 and is_ident(body[j]) and j - 1 >= 0 and (body[j - 1] == ">" or (is_ident(body[j - 1]) and body[j - 1] not in CONTROL)):
+            decl = True
+            j -= 1
+        if j >= 0 and body[j] == ">":
+            depth = 0
+            while j >= 0:
+                if body[j] == ">":
+                    depth += 1
+                elif body[j] == "<":
+                    depth -= 1
+                    if depth == 0:
+                        break
+                j -= 1
+            j -= 1
+        if j >= 0 and is_ident(body[j]) and (decl or body[k - 1] == ">"):
+            return body[j]
+        if decl and j >= 0 and is_ident(body[j]):
+            return body[j]
+        return None
+
+    def _uses(self, body, p, depth, seen):
+        """member functions invoked on the identifier p inside body"""
+        out = set()
+        i = 0
+        while i < len(body):
+            t = body[i]
+            if t == p and (i == 0 or body[i - 1] not in (".", "->", "::")):
+                nxt = body[i + 1] if i + 1 < len(body) else ""
+                if nxt == "." and i + 3 < len(body) and body[i + 3] == "(":
+                    out.add(body[i + 2])
+                elif nxt == "(":
+                    out.add("()")
+                elif nxt in ("=", ";") and i > 0 and (is_ident(body[i - 1]) or body[i - 1] in ("&", ">")):
+                    pass        # a declaration of the same name (shadowing is not modelled): ignored
+                else:
+                    # passed on: find the enclosing call
+                    depth_par, k, pos = 0, i - 1, 0
+                    while k >= 0:
+                        if body[k] in (")", "]"):
+                            depth_par += 1
+                        elif body[k] in ("(", "["):
+                            if depth_par == 0:
+                                break
+                            depth_par -= 1
+                        elif body[k] == "," and depth_par == 0:
+                            pos += 1
+                        elif body[k] in (";", "{", "}"):
+                            k = -1
+                            break
+                        k -= 1
+                    if k <= 0 or body[k] != "(":
+                        out.add("?expression")
+                    elif body[k - 1] == ")" and k >= 2 and body[k - 2] == "(":
+                        # T<...>()(args): a functor temporary
+                        ty = self._type_before(body, k - 2)
+                        out |= self.member_invoked(ty, "operator()", pos, depth + 1, seen) if ty else {"?functor"}
+                    elif is_ident(body[k - 1]) and body[k - 1] not in CONTROL:
+                        callee = body[k - 1]
+                        ty = self._type_before(body, k)
+                        if ty is not None and ty in self.classes:
+                            out |= self.ctor_invoked(ty, pos, depth + 1, seen)
+                        elif callee in self.fns:
+                            out |= self.invoked(callee, pos, depth + 1, seen, self._nargs(body, k))
+                        elif callee in self.classes:
+                            out |= self.ctor_invoked(callee, pos, depth + 1, seen)
+                        else:
+                            out.add("?" + callee)
+                    elif body[k - 1] == ">":
+                        ty = self._type_before(body, k)
+                        out |= self.ctor_invoked(ty, pos, depth + 1, seen) if ty in self.classes else {"?" + str(ty)}
+                    else:
+                        out.add("?expression")
+            i += 1
+        return out
+
+    def invoked(self, fname, argpos, depth=0, seen=None, nargs=None):
+        """member functions invoked on the argpos-th parameter of fname ("()" = call operator); nargs = number of
+        arguments at the call site (selects among overloads when some overload has exactly that many parameters)"""
         seen = seen if seen is not None else set()
-        if (fname, argpos) in seen or depth > 6:
+        if (fname, argpos, nargs) in seen:
             return set()
-        seen.add((fname, argpos))
+        if depth > 12:
+            return {"?depth"}
+        seen.add((fname, argpos, nargs))
         if fname not in self.fns:
             return {"?" + fname}
+        cands = self.fns[fname]
+        if nargs is not None and any(len(ps) == nargs for ps, _ in cands):
+            cands = [(ps, b) for ps, b in cands if len(ps) == nargs]
         out = set()
-        for ps, body in self.fns[fname]:
+        for ps, body in cands:
             if argpos >= len(ps):
                 continue
-            p = ps[argpos]
-            i = 0
-            while i < len(body):
-                t = body[i]
-                if t == p and (i == 0 or body[i - 1] not in (".", "->", "::")):
-                    nxt = body[i + 1] if i + 1 < len(body) else ""
-                    if nxt == "." and i + 3 < len(body) and body[i + 3] == "(":
-                        out.add(body[i + 2])
-                    elif nxt == "(":
-                        out.add("()")
-                    else:
-                        # passed on: find the enclosing call
-                        depth_par, k = 0, i - 1
-                        pos = 0
-                        while k >= 0:
-                            if body[k] == ")":
-                                depth_par += 1
-                            elif body[k] == "(":
-                                if depth_par == 0:
-                                    break
-                                depth_par -= 1
-                            elif body[k] == "," and depth_par == 0:
-                                pos += 1
-                            elif body[k] in (";", "{", "}"):
-                                k = -1
-                                break
-                            k -= 1
-                        if k > 0 and is_ident(body[k - 1]) and body[k - 1] not in ("if", "for", "while", "return"):
-                            callee = body[k - 1]
-                            # `Type<...> name(args)` declares an object: callee is the variable name
-                            if callee in self.fns:
-                                out |= self.invoked(callee, pos, depth + 1, seen)
-                            else:
-                                out.add("?" + callee)
-                i += 1
+            out |= self._uses(body, ps[argpos], depth, seen)
         return out
+
+    @staticmethod
+    def _nargs(body, k):
+        """number of arguments of the call whose '(' is body[k]"""
+        try:
+            c = match(body, k, "(", ")")
+        except TranslateError:
+            return None
+        return len([a for a in split_commas(body[k + 1:c]) if a])
+
+    def member_invoked(self, cls, member, argpos, depth, seen):
+        if (cls + "::" + member, argpos) in seen:
+            return set()
+        if depth > 12:
+            return {"?depth"}
+        seen.add((cls + "::" + member, argpos))
+        if cls not in self.classes:
+            return {"?" + str(cls)}
+        out, found = set(), False
+        for info in self.classes[cls]:
+            for fname, ps, body in info["members"]:
+                if fname == member and argpos < len(ps):
+                    found = True
+                    out |= self._uses(body, ps[argpos], depth, seen)
+        return out if found else {"?%s::%s" % (cls, member)}
+
+    def ctor_invoked(self, cls, argpos, depth, seen):
+        """the argpos-th constructor argument of cls: into the field it initialises, then every member function"""
+        if (cls + "::" + cls, argpos) in seen:
+            return set()
+        if depth > 12:
+            return {"?depth"}
+        seen.add((cls + "::" + cls, argpos))
+        out, found = set(), False
+        for info in self.classes.get(cls, []):
+            for ps, inits in info["ctors"]:
+                if argpos >= len(ps):
+                    continue
+                found = True
+                p = ps[argpos]
+                fields = [f for f, a in inits.items() if a == p]
+                for fname, mps, body in info["members"]:
+                    if fname == cls and mps == ps:
+                        out |= self._uses(body, p, depth, seen)        # the constructor body itself
+                    for f in fields:
+                        if f not in mps:
+                            out |= self._uses(body, f, depth, seen)
+        return out if found else {"?%s::%s" % (cls, cls)}
 
 
 # ----------------------------------------------------------------------------- methods/*.hpp
@@ -390,13 +590,9 @@ def parse_methods(repo, cb_slots, visible, helper_refs, routines):
                             break
                         k -= 1
                     if k > 0 and is_ident(toks[k - 1]):
-                        callee = toks[k - 1]
-                        if callee == "find_neighbors_with":
-                            inv |= routines.invoked("find_neighbors", 3)
-                        else:
-                            inv |= routines.invoked(callee, pos)
+                        inv |= routines.invoked(toks[k - 1], pos, nargs=routines._nargs(toks, k))
                     else:
-                        inv.add("?")
+                        inv.add("?expression")
             if t in helper_refs and i + 1 < len(toks) and toks[i + 1] == "(" and (i == 0 or toks[i - 1] not in (".", "::", "->")):
                 for r in helper_refs[t]:
                     if r not in refs:
@@ -615,9 +811,11 @@ def parse_derefs(repo):
 
 def translate(repo):
     fields, traits, inits, methods = parse_defs(repo)
-    order, ftypes, type_to_slot, cb_slots, guarded, unguarded, helper_refs, visible = parse_base(repo)
+    order, ftypes, type_to_slot, cb_slots, guarded, unguarded, helper_refs, visible, helpers = parse_base(repo)
     guards, dispatched = parse_dispatch(repo, type_to_slot)
     routines = Routines(repo)
+    for h, (hps, hb) in helpers.items():       # find_neighbors_with(d) ...: followed like any routine
+        routines.add_function(h, hps, hb)
     impl = parse_methods(repo, cb_slots, visible, helper_refs, routines)
     mds = []
     for name, trait in methods:
@@ -643,7 +841,7 @@ def render(t):
         return "true" if x else "false"
     out = []
     out.append("(* GENERATED by translate/t_use.py from include/tapkee/defines/methods.hpp, methods.hpp, methods/base.hpp,")
-    out.append("   methods/*.hpp (and routines/*.hpp for the evidence-only md_invoked) -- do not edit. *)")
+    out.append("   methods/*.hpp, routines/*.hpp, neighbors/*.hpp (md_invoked) -- do not edit. *)")
     out.append("From Coq Require Import List String.")
     out.append("From TK Require Import Chain_Model.")
     out.append("Import ListNotations.")
